@@ -63,3 +63,24 @@ class Boom(Command):
     def execute(self, **kwargs):
         EXEC_LOG.append((self.result_name, []))
         raise ZeroDivisionError("boom")
+
+
+FLAKY = {"fail": True}  # while set, Flaky.execute raises (a transient fault: missing file, bad column ...); the runner's "heal" action clears it
+
+
+class Flaky(Command):
+    """fails inside execute until healed, then returns 10 + its dependency"""
+
+    inputs = {"A": params.ResultParameter(required=False)}
+    output = params.NumberParameter()
+
+    def execute(self, **kwargs):
+        seen = []
+        total = 10
+        if "A" in kwargs:
+            total += kwargs["A"].result
+            seen.append((kwargs["A"].result_name, kwargs["A"].is_finished))
+        EXEC_LOG.append((self.result_name, seen))
+        if FLAKY["fail"]:
+            raise ZeroDivisionError("transient")
+        return total
